@@ -1,5 +1,5 @@
 """Driver logic: builds, runs harness processes, replays, known findings, evidence."""
-import sys, os, json, subprocess, time, shutil, glob, argparse, fcntl, hashlib
+import sys, os, json, subprocess, time, shutil, glob, argparse, fcntl, hashlib, tempfile
 
 VERIF = os.path.dirname(os.path.dirname(os.path.abspath(__file__)))
 # The tree under test is /repo. For mutation experiments the environment can point the driver at
@@ -163,6 +163,23 @@ def run_replay(exe, path, timeout=600, env_extra=None):
     return "error", "", False, out[-2000:]
 
 
+def run_seed_replay(exe, cfg, seed_i, mult, sub, tmpbase):
+    """Re-run one harness process exactly as the search ran it (same seed, same multiplier, all sub-checks in order) and report
+    whether sub-check `sub` fails again: the reproducible unit for a failure that depends on what the process did before the case."""
+    wd = tempfile.mkdtemp(prefix="seedreplay-", dir=tmpbase)
+    env = dict(os.environ, VERIF_MULT=str(mult), VERIF_OUT=wd, VERIF_SEED=str(seed_i), VERIF_TAG="r", VERIF_KNOWN=KNOWN_FILE, VERIF_TMP=tmpbase)
+    subprocess.run([exe] + cfg.get("args", []), env=env, stdout=subprocess.PIPE, stderr=subprocess.STDOUT)
+    frag = os.path.join(wd, "r.frag.json")
+    res = (False, "", "")
+    if os.path.exists(frag):
+        d = json.load(open(frag))
+        sm = d["subs"].get(sub)
+        if sm and sm["status"] == "fail":
+            res = (True, sm.get("failure_signature", ""), sm.get("failure_message", ""))
+    shutil.rmtree(wd, ignore_errors=True)
+    return res
+
+
 def save_replay(pid, src, label, extra=None):
     os.makedirs(os.path.join(NEW_REPLAYS, pid), exist_ok=True)
     data = open(src, "rb").read()
@@ -225,7 +242,14 @@ def check_rc(pid, cfg, tier, seed):
             continue  # re-run by the fuzz stage
         rexe, renv = exe, None
         try:
-            if json.load(open(path)).get("flavour") == "asan":
+            dd = json.load(open(path))
+            if dd.get("engine") == "seed":
+                failed, sig, msg = run_seed_replay(exe, cfg, dd["seed"], dd["mult"], dd["sub"], tmpbase)
+                n_regress += 1
+                if failed and not any(k["status"] == "known" and k["signature"] in sig.split("+") for k in known):
+                    violations.append((path, msg))
+                continue
+            if dd.get("flavour") == "asan":
                 rexe = os.path.join(build("asan", ["sp_" + cfg["exe"]]), "sp_" + cfg["exe"])
                 renv = dict(ASAN_OPTIONS="detect_leaks=0:abort_on_error=1", VERIF_TMP=tmpbase)
         except (ValueError, OSError):
@@ -320,7 +344,14 @@ def check_rc(pid, cfg, tier, seed):
                 dst = save_replay(pid, ff, name)
                 violations.append((dst, msg))
             else:
-                notes.append("%s: failure did not reproduce 3x from its saved case (%s): inconclusive" % (name, [r[0] for r in results]))
+                # The case alone does not fail: does the process that found it fail again when it is re-run with its seed?
+                # Then the failure depends on what the code under test kept from the earlier cases (state surviving between worlds).
+                reruns = [run_seed_replay(exe, cfg, seed * 1000 + i, mult, name, tmpbase) for _ in range(2)]
+                if all(x[0] and x[1] == sig for x in reruns):
+                    dst = save_replay(pid, ff, "history-" + name, extra=dict(engine="seed", seed=seed * 1000 + i, mult=mult, tier=tier))
+                    violations.append((dst, "fails only after the cases this process generated before it (the saved case alone passes; re-running the process with seed %d reproduces it twice): %s" % (seed * 1000 + i, msg)))
+                else:
+                    notes.append("%s: failure did not reproduce 3x from its saved case (%s) nor from its process seed: inconclusive" % (name, [r[0] for r in results]))
         for sig, cnt in m["known_by_signature"].items():
             for k in known:
                 if k["status"] == "known" and k["signature"] == sig:
@@ -459,6 +490,19 @@ def cmd_replay(path):
         print(("REPLAY-FAIL" if failed else "REPLAY-PASS") + " property=%s target=%s signature=%s" % (pid, d["target"], sig))
         if failed:
             print(log[-1500:])
+        return 1 if failed else 0
+    if d.get("engine") == "seed":
+        bdir = build("rel", [cfg["exe"]])
+        extra_builds(cfg)
+        tmpbase = "/dev/shm/wbv-%d" % os.getpid() if os.path.isdir("/dev/shm") else os.path.join(WORK, "tmp-%d" % os.getpid())
+        os.makedirs(tmpbase, exist_ok=True)
+        try:
+            failed, sig, msg = run_seed_replay(os.path.join(bdir, cfg["exe"]), cfg, d["seed"], d["mult"], d["sub"], tmpbase)
+        finally:
+            shutil.rmtree(tmpbase, ignore_errors=True)
+        print(("REPLAY-FAIL" if failed else "REPLAY-PASS") + " property=%s sub=%s signature=%s (process re-run with seed %s)" % (pid, d["sub"], sig, d["seed"]))
+        if failed:
+            print(msg)
         return 1 if failed else 0
     if cfg["engine"] == "rc":
         bdir = build("rel", [cfg["exe"]])
